@@ -191,8 +191,14 @@ pub fn run(ctx: &mut RunCtx) -> Result<(), Violation> {
     let calls_during_synthesis = crate::program::rng_calls_at_synthesis_end();
     ctx.st.steps += 1;
     ctx.st.eval(sig ^ 0x1, false);
-    if rng0.log.len() != 14 || rng0.log.iter().any(|c| *c != RngCall::Fill(64)) {
-        return Err(fail(format!("the prover's RNG call log is not 14 x fill_bytes(64): {:?}", rng0.log)));
+    if rng0.log.iter().any(|c| *c != RngCall::Fill(64)) {
+        // scalars are drawn through another RNG method than the one this harness substitutes:
+        // not a verdict about masking, the harness has to be taught the new draw format
+        eprintln!("HARNESS-ERROR C06: the prover draws randomness in a format other than fill_bytes(64) per scalar: {:?}", rng0.log);
+        std::process::exit(2);
+    }
+    if rng0.log.len() != 14 {
+        return Err(fail(format!("the prover drew {} masking scalars from the caller's RNG instead of 14", rng0.log.len())));
     }
     if calls_during_synthesis != 0 {
         return Err(fail(format!("{} RNG calls happened before circuit synthesis finished", calls_during_synthesis)));
